@@ -169,6 +169,15 @@ CHECKS["C09"] = dict(
     note="Trusts the C08 reference expander for the plan and the CLI in-process driver.",
     design="DESIGN.md section 4 C09")
 
+CHECKS["C18"] = dict(
+    technique="Hypothesis-generated succeeding pipelines x four ways of repeating a run; history invariant on counts (registered component classes, gc-tracked objects after gc.collect()) sampled at runs 50/150/300/450; linear-growth oracle over two consecutive windows; growing registry buckets / object types as bucket features",
+    text=("Generated-input search over (pipeline, way-of-repeating) pairs (80 pairs x 450 runs quick, 1.3k pairs thorough): the number of "
+          "registered component classes must be identical at every sample and gc-tracked objects must not grow linearly (< 0.5 per run "
+          "in at least one of the two last windows) for a reused Pipeline, fresh Pipelines, a 451-run launch through the CLI (sampled by "
+          "a probe inside the pipeline) and a queue worker thread."),
+    note="Counts, never time. The queue way uses 10/30/60/90 jobs in the quick tier (0.2 s master poll per job) and 50/150/300/450 in the thorough tier.",
+    design="DESIGN.md section 4 C18")
+
 NOT_YET = {}
 
 
